@@ -15,8 +15,9 @@ import (
 
 func init() {
 	register(&property{
-		ID:  "C10",
-		Run: runC10,
+		ID:    "C10",
+		Run:   runC10,
+		Modes: []string{"deadlock"},
 		Meta: propMeta{
 			Explanation: "Static clauses of ds.List on all CFG paths: (1) handle validation: every ListElement parameter of the nine handle-taking methods is type-asserted, and every splice (insert/insertValue/move/remove) whose argument derives from a handle is dominated by the edge on which that handle's list pointer equals the receiver; splice arguments derive only from validated handles or the sentinel; (2) bookkeeping: len and the element's list pointer change only in insert/remove/Init, and insert/remove change both on every path; (3) the pointer-splice effect sequences of insert/remove/move agree, after normalising atomic Load/Store to field access, with those extracted by the same extractor from $GOROOT/src/container/list (the reference the property names); (4) the thread-safe decorator declares every List method itself, takes the write lock for the 12 mutators and at least the read lock for readers, forwards to the same-named method with its parameters in order, releases on all exits, and never uses a List parameter while holding its own mutex (self-deadlock / AB-BA).",
 			NotDecided:  "equality with container/list over operation histories (follows only informally from the clauses); behaviour of foreign ListElement implementations",
